@@ -162,7 +162,8 @@ TrPersist ==
 
 TrOpen ==
   /\ IsEv("open")
-  /\ IF Ev.err # "" THEN UNCHANGED <<segs, files, lcm>> /\ Step("open", {<<"open-error", Ev.err>>})
+  /\ IF Ev.err # "" THEN UNCHANGED <<segs, files, lcm>>
+                          /\ Step(IF Ev.file \in DOMAIN files THEN "open-" \o files[Ev.file].c.prov ELSE "open", {<<"open-error", Ev.err>>})
      ELSE /\ Open(Ev.sid, Ev.file)
           /\ Step("opened-" \o files[Ev.file].c.prov \o
                     (IF files[Ev.file].c.prov = "merged" /\ Count(files[Ev.file].c) = 0 THEN "-zero" ELSE ""),
@@ -222,6 +223,14 @@ TrFrozen ==
   \/ IsEv("fopen") /\ Open(Ev.sid, Ev.file) /\ Step("frozen", {})
   \/ IsEv("fmerge") /\ Merge(Ev.file, Ev.ins, [i \in 1..Len(Ev.drops) |-> DropSet(Ev.drops[i])], Ev.mode) /\ Step("frozen", {})
 
+\* the batch of a built segment, built once more alone on emptied pools, has the same image: what is built is
+\* determined by the batch and the chunk mode (C10); the harness compares the sizes (the bytes may differ in the
+\* order of the section entries of a field's table, which follows a map iteration)
+TrSameBytes ==
+  /\ IsEv("samebytes")
+  /\ UNCHANGED <<segs, files, lcm>>
+  /\ Step("built", IfBad(~Ev.same, <<"image-size-depends-on-history", Ev.sid, Ev.flen, Ev.rlen>>))
+
 \* informational records of the harness (pool residue, garbage collection): no specification step
 TrNote == IsEv("note") /\ UNCHANGED <<segs, files, lcm>> /\ Step("note", {})
 
@@ -232,7 +241,7 @@ TrClose ==
 
 TrEnd == l = Len(Trace) + 1 /\ l' = l + 1 /\ PrintT(<<"ACCEPTED", Len(Trace), nbad>>) /\ UNCHANGED <<segs, files, lcm, nbad>>
 
-TraceNext == TrFrozen \/ TrEngFail \/ TrObs \/ TrNote \/ TrDvWalk \/ TrReset \/ TrBuild \/ TrBuildFail \/ TrPersist \/ TrOpen \/ TrMerge \/ TrClose \/ TrEnd
+TraceNext == TrFrozen \/ TrEngFail \/ TrSameBytes \/ TrObs \/ TrNote \/ TrDvWalk \/ TrReset \/ TrBuild \/ TrBuildFail \/ TrPersist \/ TrOpen \/ TrMerge \/ TrClose \/ TrEnd
 
 TraceSpec == TraceInit /\ [][TraceNext]_traceVars
 
